@@ -8,6 +8,7 @@
 // std
 #include <algorithm>  // std::min()/std::max() on Windows
 #include <cmath>
+#include <type_traits>
 
 // Include vector intrinsics
 #ifndef RKCOMMON_NO_SIMD
@@ -117,10 +118,26 @@ namespace rkcommon {
       return (1.f - factor) * a + factor * b;
     }
 
+    namespace detail {
+      // integers: a + b - 1 wraps for large operands (divRoundUp(2, INT_MAX)
+      // gave -1), quotient and remainder do not
+      template <typename T>
+      inline T divRoundUp(T a, T b, std::true_type)
+      {
+        return a / b + T(a % b > 0);
+      }
+
+      template <typename T>
+      inline T divRoundUp(T a, T b, std::false_type)
+      {
+        return (a + b - 1) / b;
+      }
+    }  // namespace detail
+
     template <typename T>
     inline T divRoundUp(T a, T b)
     {
-      return (a + b - 1) / b;
+      return detail::divRoundUp(a, b, std::is_integral<T>());
     }
 
 #define APPROXIMATE_SRGB
